@@ -1792,7 +1792,7 @@ Section TryCase.
   Proof.
     intros Ho IH. destruct (tr_body t1 o s1 IH) as (J1 & [_ P7] & PE & KO). split; auto.
     rewrite tr_final. destruct tr_ceq6 as [CL CE]. split; auto.
-    destruct Ho as [->|[->|->]].
+    destruct Ho as [Ho | [Ho | Ho]]; subst o.
     - rewrite CL in P7. destruct (loops st); auto. eapply chain_impl; [|exact P7].
       intros s [A B']. split; auto. eapply hp_mono; [apply tr_incl_7F|exact B'].
     - rewrite CL in P7. exact P7.
@@ -1813,10 +1813,10 @@ Section TryCase.
     unfold posth in Q. destruct o.
     - destruct Q as (KQ & PN & HPn). rewrite CE in KQ. split; auto.
       apply cip_sound; auto; [apply tr_lenN|]. eapply hp_mono; [exact Hincl|exact HPn].
-    - apply (post_ctx g st T8) in Q; auto. eapply post_mono; [exact Hincl|discriminate|exact Q].
-    - apply (post_ctx g st T8) in Q; auto. eapply post_mono; [exact Hincl|discriminate|exact Q].
-    - apply (post_ctx g st T8) in Q; auto. eapply post_mono; [exact Hincl|discriminate|exact Q].
-    - apply (post_ctx g st T8) in Q; auto. eapply post_mono; [exact Hincl|discriminate|exact Q].
+    - eapply post_mono; [exact Hincl|discriminate|]. eapply post_ctx; [| |exact Q]; auto.
+    - eapply post_mono; [exact Hincl|discriminate|]. eapply post_ctx; [| |exact Q]; auto.
+    - eapply post_mono; [exact Hincl|discriminate|]. eapply post_ctx; [| |exact Q]; auto.
+    - eapply post_mono; [exact Hincl|discriminate|]. eapply post_ctx; [| |exact Q]; auto.
   Qed.
 End TryCase.
 
@@ -1832,3 +1832,100 @@ Proof. intros IHb IHh st g Hi Hw He HA HK. eapply tr_exc; eauto. Qed.
 Lemma sim_try_prop body h el hs sg t1 o s1 : o = OBrk \/ o = OCont \/ o = ORet -> sim_stmt body sg t1 o s1 ->
   sim_stmt (Try body h el hs) sg t1 o s1.
 Proof. intros Ho IH st g Hi Hw He HA HK. eapply tr_prop; eauto. Qed.
+
+(* ------------------------------------------------------------------ all executions *)
+Theorem sim_all : forall it sg tr o s2, exec it sg tr o s2 ->
+  match it with
+  | IS s => sim_stmt s sg tr o s2
+  | IL f c tg body h el => sim_loop f c tg body h el sg tr o s2
+  | IH hs => sim_h hs sg tr o s2
+  end.
+Proof.
+  induction 1.
+  - apply sim_skip. - apply sim_call. - apply sim_call_exc. - apply sim_ref. - apply sim_asg.
+  - now apply sim_del. - now apply sim_del_exc.
+  - eapply sim_seq; eauto. - eapply sim_seq_stop; eauto.
+  - now apply sim_if_exc. - eapply sim_if_then; eauto. - eapply sim_if_else; eauto.
+  - now apply sim_if_skip.
+  - now apply sim_while. - now apply sim_for_exc. - eapply sim_for; eauto.
+  - now apply sim_loop_exc. - now apply sim_loop_exit. - eapply sim_loop_else; eauto.
+  - eapply sim_loop_iter; eauto. - eapply sim_loop_break; eauto. - eapply sim_loop_prop; eauto.
+  - now apply sim_try_norm. - eapply sim_try_else; eauto. - eapply sim_try_exc; eauto.
+  - eapply sim_try_prop; eauto.
+  - apply sim_h_nil. - now apply sim_h_match. - now apply sim_h_skip.
+  - eapply sim_tryfin_exc; eauto. - eapply sim_tryfin_other; eauto.
+  - apply sim_break. - apply sim_continue. - apply sim_return. - apply sim_raise.
+Qed.
+
+(* ------------------------------------------------------------------ a whole function *)
+Definition s_init : state := fun _ => false.
+
+Lemma st_init_ok g args : forall X sg, inv X -> at_cur g X sg ->
+  ext (fold_left (fun st r => append (LAsg (fst r) (snd r)) st) args X) g ->
+  inv (fold_left (fun st r => append (LAsg (fst r) (snd r)) st) args X) /\
+  at_cur g (fold_left (fun st r => append (LAsg (fst r) (snd r)) st) args X) (bind args sg).
+Proof.
+  induction args as [|[l e] args IH]; intros X sg Hi HA He; simpl in *; auto.
+  assert (R1 : R 0 X (append (LAsg l e) X)) by (apply R_append, R0, Hi).
+  apply IH; auto.
+  - exact (R_inv _ _ _ R1).
+  - apply (at_cur_append g X (LAsg l e) sg); auto.
+    eapply ext_trans; [|exact He].
+    clear. generalize (append (LAsg l e) X). induction args as [|[l' e'] args IHa]; intros Y; simpl.
+    + apply ext_refl.
+    + eapply ext_trans; [|apply IHa]. unfold append. destruct (cur Y); [|apply ext_refl].
+      split; [eexists [_]; reflexivity|apply incl_refl].
+Qed.
+
+Lemma ext_fold_append args : forall X, ext X (fold_left (fun st r => append (LAsg (fst r) (snd r)) st) args X).
+Proof.
+  induction args as [|[l e] args IH]; intros X; simpl; [apply ext_refl|].
+  eapply ext_trans; [|apply IH]. unfold append. destruct (cur X); [|apply ext_refl].
+  split; [eexists [_]; reflexivity|apply incl_refl].
+Qed.
+
+Lemma ceq_fold_append args : forall X, ceq X (fold_left (fun st r => append (LAsg (fst r) (snd r)) st) args X).
+Proof.
+  induction args as [|[l e] args IH]; intros X; simpl; [apply ceq_refl|].
+  eapply ceq_trans; [apply ceq_append|apply IH].
+Qed.
+
+(* Every read (or del) of a name that happens while the name is unbound, in any execution of the
+   function body, is a reference statement of the built graph at a position that some path from the
+   entry point reaches with the name unbound. *)
+Theorem cfg_covers_paths args body tr o s2 :
+  wf false body = true ->
+  exec (IS body) (bind args s_init) tr o s2 ->
+  Forall (justified (build true args body)) tr.
+Proof.
+  intros Hw Hex. set (g := build true args body).
+  set (X0 := nextblock (mk_bst 2 [] [] (Some 0) [] [])).
+  assert (I0 : inv X0).
+  { apply (R_inv 0 (mk_bst 2 [] [] (Some 0) [] [])). apply R_nextblock, R0. split; simpl.
+    - intros p [].
+    - intros b Hb. inversion Hb. lia. }
+  assert (Eg : ext (visit true body (st_init args)) g).
+  { unfold g, build, link_cur. destruct (cur (visit true body (st_init args))); [apply ext_add_edge_k|apply ext_refl]. }
+  assert (Iv : inv (st_init args) /\ at_cur g (st_init args) (bind args s_init)).
+  { unfold st_init. fold X0. apply st_init_ok; auto.
+    - exists 2. split; [reflexivity|]. simpl.
+      eapply (P_edge g 0 0 2); [apply P_entry|].
+      destruct Eg as [_ Ei]. apply Ei.
+      assert (E0 : ext X0 (visit true body (st_init args))).
+      { eapply ext_trans; [apply (ext_fold_append args X0)|]. apply (R_ext 0), visit_R00.
+        unfold st_init. fold X0.
+        clear - I0. revert I0. generalize X0. induction args as [|[l e] args IH]; intros Y HY; simpl; auto.
+        apply IH. exact (R_inv 0 Y _ (R_append _ _ _ _ (R0 _ HY))). }
+      apply (ext_edges _ _ E0). simpl. auto.
+    - eapply ext_trans; [|exact Eg]. apply (R_ext 0), visit_R00.
+      clear - I0. unfold st_init. fold X0. revert I0. generalize X0.
+      induction args as [|[l e] args IH]; intros Y HY; simpl; auto.
+      apply IH. exact (R_inv 0 Y _ (R_append _ _ _ _ (R0 _ HY))). }
+  destruct Iv as [Iv Av].
+  assert (C0 : ceq (mk_bst 2 [] [] (Some 0) [] []) (st_init args)).
+  { unfold st_init. eapply ceq_trans; [apply ceq_nextblock_from|apply ceq_fold_append]. }
+  destruct C0 as [CL CE]. simpl in CL, CE.
+  assert (Hw' : wf (inl (st_init args)) body = true) by (unfold inl; rewrite CL; exact Hw).
+  assert (Kv : Kexc g (excs (st_init args)) (bind args s_init)) by (rewrite CE; exact I).
+  exact (proj1 (sim_all _ _ _ _ _ Hex (st_init args) g Iv Hw' Eg Av Kv)).
+Qed.
